@@ -1,7 +1,7 @@
 (** C15 - an S3 repository behaves like a filesystem repository: the key / prefix / paging
     arithmetic of src/ocfl/store/s3.rs and src/ocfl/paths.rs:113-141.
     Property theorems only; each closed by [exact] of a lemma from Proofs/. *)
-From Rocfl Require Import Base.Bytes Generated.Consts Model.S3 Model.KnownS3 Proofs.S3Facts.
+From Rocfl Require Import Base.Bytes Generated.Consts Model.S3 Proofs.S3Facts.
 Open Scope N_scope.
 
 (** however many keys a listing returns per page (>= 1), the client loop of list_prefix
@@ -43,52 +43,77 @@ Theorem C15_join_assoc : forall a x y, relb a = true -> relb x = true -> relb y 
 Proof. exact join_assoc_rel. Qed.
 Print Assumptions C15_join_assoc.
 
+(** the prefix S3Client::new stores (s3.rs:741, since /repo commit 1405318) never ends with a
+    slash and differs from the given value by trailing slashes only *)
+Theorem C15_client_prefix_trimmed : forall raw,
+  pfx_ok (client_prefix raw) = true /\ exists n, raw = client_prefix raw ++ repeat slash n.
+Proof. exact client_prefix_spec. Qed.
+Print Assumptions C15_client_prefix_trimmed.
+
+(** a prefix given as "pre/", "pre//", ... is the same repository as "pre" (every key and every
+    listing below depends on the given value through [client_prefix] only); a value without a
+    trailing slash is kept as given (a leading slash included) *)
+Theorem C15_prefix_trailing_slashes_irrelevant : forall raw n,
+  client_prefix (raw ++ repeat slash n) = client_prefix raw /\
+  (pfx_ok raw = true -> client_prefix raw = raw).
+Proof. exact client_prefix_trailing_slashes_irrelevant. Qed.
+Print Assumptions C15_prefix_trailing_slashes_irrelevant.
+
 (** keys of a directory tree (one join per level, as the upload does) are the prefix joined
     with the slash-separated file paths, and cutting a key back into segments returns the file
-    path: files and keys correspond one to one (directories without files have no key) *)
-Theorem C15_keys_tree_bijection : forall cprefix cs,
-  c15_prefix_trailing_slash cprefix = false -> tree_wf (TDir cs) = true ->
+    path: files and keys correspond one to one (directories without files have no key);
+    for EVERY prefix value the caller may give *)
+Theorem C15_keys_tree_bijection : forall raw cs,
+  tree_wf (TDir cs) = true ->
+  let cprefix := client_prefix raw in
   keys_of_tree cprefix (TDir cs) =
     map (fun pc => (join cprefix (concat_slash (fst pc)), snd pc)) (flatten (TDir cs)) /\
   map (fun kc => (path_of_key cprefix (fst kc), snd kc)) (keys_of_tree cprefix (TDir cs)) =
     map (fun pc => (Ok (fst pc), snd pc)) (flatten (TDir cs)).
-Proof. intros cp cs H. apply keys_tree_bijection_lemma. now apply c15_class_pfx_ok. Qed.
+Proof. intros raw cs H. apply keys_tree_bijection_lemma; [apply client_prefix_pfx_ok|exact H]. Qed.
 Print Assumptions C15_keys_tree_bijection.
 
-(** outside the known class the prefix_offset slicing strips exactly "prefix/" from every key
-    a listing can return *)
-Theorem C15_prefix_offset_ok : forall cprefix path key,
-  c15_prefix_trailing_slash cprefix = false ->
+(** the prefix_offset slicing strips exactly "prefix/" from every key a listing can return,
+    for every prefix value the caller may give (trailing slashes included) *)
+Theorem C15_prefix_offset_ok : forall raw path key,
+  let cprefix := client_prefix raw in
   starts_with (request_prefix cprefix path) key = true ->
   exists rel, key = under cprefix rel /\
               (head_is_boundary rel = true -> slice_from (prefix_offset cprefix) key = Ok rel).
-Proof. intros cp path key H. apply prefix_offset_exact. now apply c15_class_pfx_ok. Qed.
+Proof. intros raw path key. apply prefix_offset_exact, client_prefix_pfx_ok. Qed.
 Print Assumptions C15_prefix_offset_ok.
 
 (** ... so a recursive listing returns exactly the keys under the requested path, relative to
     the repository prefix *)
-Theorem C15_list_objects_exact : forall keys cprefix path,
-  c15_prefix_trailing_slash cprefix = false -> keys_boundary_ok cprefix keys ->
+Theorem C15_list_objects_exact : forall keys raw path,
+  let cprefix := client_prefix raw in
+  keys_boundary_ok cprefix keys ->
   exists rels, list_all keys cprefix path false = Ok (rels, []) /\
                map (under cprefix) rels = filter (starts_with (request_prefix cprefix path)) keys.
-Proof. intros keys cp path H. apply list_objects_exact_lemma. now apply c15_class_pfx_ok. Qed.
+Proof. intros keys raw path. apply list_objects_exact_lemma, client_prefix_pfx_ok. Qed.
 Print Assumptions C15_list_objects_exact.
 
-(** inside the class (prefix given as "pre/") one character too many is cut off: known finding *)
-Theorem C15_prefix_trailing_slash_refuted :
-  let cp := b "pre/" in let key := b "pre/0=ocfl_1.0" in
-  c15_prefix_trailing_slash cp = true /\
-  key = join cp (b "0=ocfl_1.0") /\
-  starts_with (request_prefix cp []) key = true /\
-  slice_from (prefix_offset cp) key = Ok (b "=ocfl_1.0") /\
-  list_all [key] cp [] true = Ok ([b "=ocfl_1.0"], []).
-Proof. exact prefix_offset_trailing_slash_witness. Qed.
-Print Assumptions C15_prefix_trailing_slash_refuted.
+(** the former known finding prefix-trailing-slash as a regression statement: prefixes given
+    as "pre/", "pre//", "/" (only slashes = bucket root) and "/pre" (leading slash kept) *)
+Theorem C15_prefix_slash_cases :
+  client_prefix (b "pre/") = b "pre" /\ client_prefix (b "pre//") = b "pre" /\
+  client_prefix (b "/") = b "" /\ client_prefix (b "//") = b "" /\
+  client_prefix (b "/pre") = b "/pre" /\ client_prefix (b "//pre/") = b "//pre" /\
+  client_prefix (b "a//b/") = b "a//b" /\
+  (let cp := client_prefix (b "pre/") in let key := b "pre/0=ocfl_1.0" in
+   key = join cp (b "0=ocfl_1.0") /\ list_all [key] cp [] true = Ok ([b "0=ocfl_1.0"], [])) /\
+  (let cp := client_prefix (b "/") in let key := b "0=ocfl_1.0" in
+   key = join cp (b "0=ocfl_1.0") /\ list_all [key] cp [] true = Ok ([b "0=ocfl_1.0"], [])) /\
+  (let cp := client_prefix (b "/pre") in let key := b "/pre/a/0=ocfl_object_1.0" in
+   key = join cp (b "a/0=ocfl_object_1.0") /\ list_all [key] cp [] true = Ok ([], [b "a"]) /\
+   list_all [key] cp (b "a") false = Ok ([b "a/0=ocfl_object_1.0"], [])).
+Proof. exact prefix_slash_cases. Qed.
+Print Assumptions C15_prefix_slash_cases.
 
 (** Non-vacuity: the hypotheses are met by a concrete repository *)
 Example C15_nonvacuous :
   let keys := [b "pre/0=ocfl_1.1"; b "pre/a/0=ocfl_object_1.1"; b "pre/a/inventory.json"; b "pre/a/v1/content/x"; b "pre/b/c/0=ocfl_object_1.0"] in
-  c15_prefix_trailing_slash (b "pre") = false /\
+  client_prefix (b "pre") = b "pre" /\ client_prefix (b "pre/") = b "pre" /\
   list_paged 2 keys (b "pre") [] true = Some (Ok ([b "0=ocfl_1.1"], [b "a"; b "b"])) /\
   list_all keys (b "pre") (b "a") false = Ok ([b "a/0=ocfl_object_1.1"; b "a/inventory.json"; b "a/v1/content/x"], []) /\
   tree_wf (TDir [(b "a", TDir [(b "x", TFile (b "1")); (b "empty", TDir [])]); (b "f", TFile (b "2"))]) = true /\
